@@ -14,16 +14,19 @@ CONFIG = {
                   "every dial attempt is over within dialTimeout + handshakeDeadline and no Connect blocks. What the code does at "
                   "the repaired places (discard + retry, handshake deadline, closing failed / rejected connections) is regenerated "
                   "from the source; kernel-checked witnesses show the stale session, the Connect that blocks under the mutex and the "
-                  "leaked rejected connection for the values before the repairs. Partial: real time is only bounded per attempt "
+                  "leaked rejected connection for the values before the repairs; the bound holds at every stall point of the handshake "
+                  "(silent from the start, after the first response, inside the StartTLS handshake, inside a TLS record: "
+                  "C16_bounded_abandon_stall over the regenerated list of every deadline call of client.go with its placement "
+                  "and the call chain of the handshake phases). Partial: real time is only bounded per attempt "
                   "(the dial timeout is the operating system's, stdio carriers ignore deadlines), the multiplexer noticing a cut "
                   "(immediately on FIN/RST, else keep-alive <= 30 s) is its contract, outcomes of concurrent Connects are compared "
                   "with the code on the sequential schedule only.",
-    "level_note": "Trusted: Lean kernel; SA.Model.Policy tied to the code by 17 regenerated shape facts (listener.go, upstream.go, "
+    "level_note": "Trusted: Lean kernel; SA.Model.Policy tied to the code by 20 regenerated shape facts (listener.go, upstream.go, "
                   "the five upstream kinds, client.go) and by the `policy` correspondence: the real AbstractListener.HandleConnection "
                   "and Upstreams with scripted fake upstreams whose Connect runs the real NewClientConnection over net.Pipe against "
                   "the real server.AcceptConnection (time compressed by shortening the deadlines the client sets), comparing per event "
                   "who served, which upstreams were dialled, how many physical connections the client holds; `polnet` runs real "
-                  "client/server commands over TCP/TLS/websocket with a relay that cuts, dead/silent/garbage/insecure first upstreams "
+                  "client/server commands over TCP/TLS/websocket with a relay that cuts, dead/silent/garbage/insecure/stalling-in-StartTLS/silent-websocket first upstreams "
                   "and forward addresses; `poltls` runs a verifying client (CA, no insecure flag, security required) over lists of real "
                   "servers addressed by different names, of different kinds (tcp+tls, StartTLS, wss) and with different certificates, in "
                   "both orders and across the loss of the serving upstream, against C16_verified_failover / _mirror / _reconnect, where "
@@ -37,7 +40,10 @@ CONFIG = {
             "x security requirement x {reuse+cut+reconnect, concurrent+cut, close}; failing prefixes of every kind before the first "
             "usable upstream at every position of lists of 3..4; every forward-address form; 30 enumerated histories over "
             "{connect, connect+close, unknown channel, 2/3 concurrent, cut, restart, Shutdown, verify} on 10 lists incl. restart "
-            "scripts; random lists x random histories; malformed ops. polnet: enumerated scenarios x carriers. poltls: fail-over (list + reversed list) for every unordered pair of "
+            "scripts; stall points {after the first response, inside the StartTLS handshake, inside a TLS record} (a real StartTLS server "
+            "whose answers stop reaching the client from that point on) before / after / without every healthy kind {plain, secure "
+            "carrier, StartTLS} x security requirement x {reuse+cut, concurrent, Shutdown, restart scripts}; random lists (all 9 "
+            "kinds) x random histories; malformed ops. polnet: enumerated scenarios x carriers. poltls: fail-over (list + reversed list) for every unordered pair of "
             "kinds {tcp+tls, StartTLS, wss} x the two upstreams addressed by different names x state pairs {cert both, nameonly, iponly, "
             "dead}^2; kill / cut of the serving upstream for every ordered pair of kinds x names x second-upstream states; triples "
             "(dead, unusable by name, healthy); thorough: 150 random lists of 2..3. monitor: the first upstream in list order that is "
@@ -47,6 +53,7 @@ CONFIG = {
                                  "x509 hypothesis of poltls: a certificate is accepted iff signed by the client's CA and carrying the "
                                  "name (localhost / 127.0.0.1) the upstream is addressed by"],
     "assumptions": ["blocked = neither served nor refused within 4 s, confirmed by a rerun with 10 s",
-                    "a silent peer is detected through the deadline the client sets (compressed to 40 ms); OS dial timeouts are not exercised",
-                    "polnet deadlines 5 s + one retry; the silent-first scenario waits for the real 20 s HandshakeTimeout (thorough tier only)"],
+                    "a silent peer is detected through the deadline the client sets (compressed to 40 ms; 60 ms towards a peer that stalls later in the handshake, rerun with 2 s when the stall point was not reached in time); OS dial timeouts are not exercised",
+                    "a stall after the socketace handshake (first smux/multistream answer) is bounded by smux's keep-alive (30 s), its contract: not driven",
+                    "polnet deadlines 5 s + one retry; the silent-first / stalltls scenarios wait for the real 20 s HandshakeTimeout, silentws for the websocket dialer's 45 s (thorough tier only)"],
 }
